@@ -80,7 +80,7 @@ func (c *Ctx) traceToParams(v ssa.Value, d int) ([]*ssa.Parameter, bool) {
 		return nil, false
 	case *ssa.Parameter:
 		par := x.Parent()
-		if par.Parent() == nil && !p.PrivateHelper(par) {
+		if par.Parent() == nil && (!p.PrivateHelper(par) || isArgCtorLike(par)) {
 			return []*ssa.Parameter{x}, true
 		}
 		idx := -1
@@ -117,12 +117,34 @@ func isArgCtor(f *ssa.Function) bool {
 	return rs.Len() == 1 && core.TypeStr(rs.At(0).Type()) == "Arg"
 }
 
+// isArgCtorLike: an exported option constructor, or an unexported top-level function of the same shape (it returns
+// an Arg and takes at least one string parameter) that exported constructors share their implementation with — such a
+// function carries labels of its own and is judged like a constructor by OPTDELEG.
+func isArgCtorLike(f *ssa.Function) bool {
+	if isArgCtor(f) {
+		return true
+	}
+	if f == nil || f.Parent() != nil || f.Object() == nil || f.Signature.Recv() != nil || f.Blocks == nil {
+		return false
+	}
+	rs := f.Signature.Results()
+	if rs.Len() != 1 || core.TypeStr(rs.At(0).Type()) != "Arg" {
+		return false
+	}
+	for _, q := range f.Params {
+		if b, ok := q.Type().Underlying().(*types.Basic); ok && b.Kind() == types.String {
+			return true
+		}
+	}
+	return false
+}
+
 func (c *Ctx) runOptDeleg() {
 	p := c.P
 	roles := map[*ssa.Function]map[int]string{} // ctor -> parameter index -> "name" | "subtype"
 	setRole := func(prm *ssa.Parameter, role string) {
 		f := prm.Parent()
-		if !isArgCtor(f) {
+		if !isArgCtorLike(f) {
 			return
 		}
 		if b, ok := prm.Type().Underlying().(*types.Basic); !ok || b.Kind() != types.String {
@@ -221,7 +243,7 @@ func (c *Ctx) runOptDeleg() {
 	}
 	var ctors []*ssa.Function
 	for _, f := range p.ArgFuncs() {
-		if isArgCtor(f) {
+		if isArgCtorLike(f) {
 			ctors = append(ctors, f)
 		}
 	}
@@ -231,7 +253,7 @@ func (c *Ctx) runOptDeleg() {
 		for _, f := range ctors {
 			for _, ci := range core.Calls(f) {
 				cal := ci.Common().StaticCallee()
-				if !isArgCtor(cal) || roles[cal] == nil {
+				if !isArgCtorLike(cal) || roles[cal] == nil {
 					continue
 				}
 				for j, r := range roles[cal] {
@@ -300,7 +322,7 @@ func (c *Ctx) runOptDeleg() {
 	for _, f := range ctors {
 		for _, ci := range core.Calls(f) {
 			cal := ci.Common().StaticCallee()
-			if !isArgCtor(cal) || cal == f {
+			if !isArgCtorLike(cal) || cal == f {
 				continue
 			}
 			if len(roles[f]) == 0 && len(roles[cal]) == 0 {
